@@ -87,6 +87,13 @@ func prepareGroup(g *Group, work string) (*loadedGroup, error) {
 		return nil, err
 	}
 	lg.overlay[filepath.Join(g.PkgDir, "zz_verif_rt.go")] = rt
+	if g.ExtraRT != "" {
+		x := filepath.Join(work, g.Name+"_rt_sym_"+g.ExtraRT+".go")
+		if err := renderTemplate(filepath.Join(verifDir, "harness", "rt", "sym_"+g.ExtraRT+".go.tmpl"), x, g.PkgName); err != nil {
+			return nil, err
+		}
+		lg.overlay[filepath.Join(g.PkgDir, "zz_verif_rt_"+g.ExtraRT+".go")] = x
+	}
 	hs, err := harnessFuncs(files)
 	if err != nil {
 		return nil, err
@@ -367,6 +374,8 @@ func cmdCheck(args []string) int {
 	for _, gn := range ps.Groups {
 		g := groups[gn]
 		if g.Corpus {
+			gc := *g
+			g = &gc
 			if err := buildCorpus(g, work); err != nil {
 				fmt.Println("INCONCLUSIVE: corpus pipeline failed:", err)
 				return 2
